@@ -26,6 +26,7 @@ type flowEvent struct {
 }
 
 type flowAux struct {
+	NegPosWant              int // negative-then-positive focus: body bytes due at the mark
 	Events                  []flowEvent
 	UploadBehindEarlyAnswer int
 	Streams                 map[uint32]string // stream id -> tag (GET downloads)
@@ -94,6 +95,45 @@ func drawFlow(t *rapid.T, check string) *Case {
 		p.Args = []string{"-reverse-proxy-flush-interval", "-1ns"}
 	}
 
+	if check == "C12" && (drawBool(t, "negpos", 3) || osGetenv("VERIF_C12_NEGPOS") != "") {
+		// a stream window driven negative by a SETTINGS change and then opened again by a
+		// WINDOW_UPDATE of the client, which thereafter stays quiet: the data the window now
+		// permits has to arrive without any further frame from the client
+		w0 := []int{1, 4000, 10000, 16384}[rapid.IntRange(0, 3).Draw(t, "negposw0")]
+		plus := rapid.IntRange(1, 20000).Draw(t, "negposplus")
+		tag := "c0-f0"
+		body := bodyBytes(tag, w0+plus+rapid.IntRange(1, 30000).Draw(t, "negposrest"))
+		p.Backend.Resp[tag] = &RespPlan{Status: 200, Body: body}
+		aux.Bodies[tag] = body
+		aux.Streams[1] = tag
+		aux.NStreams = 1
+		steps = append(steps, Step{Kind: "write", Pieces: [][]byte{append([]byte(ClientPreface), FramesBytes(SettingsFrame(Setting{4, uint32(w0)}))...)}})
+		aux.Events = append(aux.Events, flowEvent{Kind: "settings", IWS: int64(w0), MFS: 16384, Write: nwrite})
+		nwrite++
+		fields := [][2]string{{":method", "GET"}, {":scheme", "https"}, {":authority", "fc.verif.test"}, {":path", "/" + tag}, {"x-tag", tag}}
+		write(HeadersFrames(1, enc.Block(fields), true, nil, -1, nil)...)
+		// wait until the first window is used up, then shut the window below zero ...
+		steps = append(steps, Step{Kind: "h2bytes", Streams: []uint32{1}, DelayMS: w0})
+		write(SettingsFrame(Setting{4, 0}))
+		aux.Events = append(aux.Events, flowEvent{Kind: "settings", IWS: 0, MFS: -1, Write: nwrite - 1})
+		// ... and open it again: -w0 + (w0 + plus) = plus
+		write(WindowUpdateFrame(1, uint32(w0+plus)))
+		aux.Events = append(aux.Events, flowEvent{Kind: "wu", Stream: 1, Inc: uint32(w0 + plus), Write: nwrite - 1})
+		steps = append(steps, Step{Kind: "sleep", DelayMS: 2000}, Step{Kind: "h2mark", Streams: []uint32{1}})
+		aux.NegPosWant = w0 + plus
+		// the rest
+		write(SettingsFrame(Setting{4, 1 << 20}), WindowUpdateFrame(0, 1<<20))
+		aux.Events = append(aux.Events, flowEvent{Kind: "settings", IWS: 1 << 20, MFS: -1, Write: nwrite - 1}, flowEvent{Kind: "wu", Stream: 0, Inc: 1 << 20, Write: nwrite - 1})
+		steps = append(steps, Step{Kind: "h2await", Streams: []uint32{1}}, Step{Kind: "close"})
+		cp.Steps = steps
+		p.Clients = []*ClientPlan{cp}
+		p.Fences = drawBool(t, "fences", 30)
+		p.Tape, p.Tail = drawTape(t, 64)
+		c := &Case{Plan: p, Metas: []*ClientMeta{{Proto: "h2"}}, Aux: aux, Oracle: oracleC12}
+		c.Summary = fmt.Sprintf("scheduler=%s: download under a stream window of %d, SETTINGS_INITIAL_WINDOW_SIZE 0 once it is used up (window -%d), WINDOW_UPDATE +%d, then silence for 2 s", p.SchedKind, w0, w0, w0+plus)
+		c.Nontrivial = func(w *World, c *Case) bool { return len(w.Clients[0].Marks) > 0 }
+		return c
+	}
 	iws := int64([]int{0, 1, 100, 16384, 65535, 1 << 20}[rapid.IntRange(0, 5).Draw(t, "iws0")])
 	// focus (4% of C12 runs): the back-end answers early without reading an upload while the
 	// client's stream window is shut, so the stream stays open with its request body closed
@@ -701,6 +741,19 @@ func oracleC12(w *World, c *Case) {
 			}
 		}
 	}
+	if aux.NegPosWant > 0 {
+		w.mu.Lock()
+		marks := append([]int(nil), cl.Marks...)
+		w.mu.Unlock()
+		if len(marks) == 0 {
+			w.Violate("harness", "harness", "negative-then-positive focus: the mark was never taken | %s", desc)
+		} else if marks[0] != aux.NegPosWant {
+			w.Violate("window_opened_data_not_delivered", "window_opened_data_not_delivered", "2 s of silence after the WINDOW_UPDATE that took the stream window from negative to positive: %d body bytes received, %d are permitted and queued | %s", marks[0], aux.NegPosWant, desc)
+			return
+		} else {
+			w.Probe("window_reopened_from_negative_data_delivered")
+		}
+	}
 	// liveness: once the final grants were sent, every body arrives completely
 	connDied := cl.GoAway != nil && len(cl.GoAway.Payload) >= 8 && binary.BigEndian.Uint32(cl.GoAway.Payload[4:]) != 0
 	if connDied && !aux.ConnOverflow {
@@ -815,7 +868,7 @@ func init() {
 		}
 		return drawFlow(t, "C12")
 	},
-		Rule: "a raw-frame client opens 1-8 (5%: 20-120) streams: downloads of 0..300000 bytes (boundary sizes 16384/16385/65535/65536, streamed by the back-end in chunks; 20% without Content-Length and with the end of the response held back until the controller releases it, so that END_STREAM travels in an empty DATA frame queued after further window events) and uploads of 0..120000 bytes in DATA frames of seeded sizes with padding (20% answered by the back-end without reading the body; 15% longer than their declared content-length, so that the server resets the stream and has to discard what follows), with SETTINGS_INITIAL_WINDOW_SIZE in {0,1,100,16384,65535,2^20} and MAX_FRAME_SIZE variants; then 0-10 window events: connection / stream WINDOW_UPDATEs of 1..2^20, further small downloads opened in between, INITIAL_WINDOW_SIZE changes up and down (driving open windows negative), MAX_FRAME_SIZE changes, client RST_STREAM mid-body; final grants that suffice for everything; 5%: a connection WINDOW_UPDATE overflowing 2^31-1. All three write schedulers, fences (incl. the write fence that keeps a frame write in flight, 30% of runs), response segmentation by draw. Oracle refwin: every DATA frame within the connection window, the stream window (largest INITIAL_WINDOW_SIZE among the last acknowledged and all later written SETTINGS, plus every WINDOW_UPDATE written before the frame was received) and the maximum frame size; all bodies complete and byte-identical after the final grants; overflow rejected with FLOW_CONTROL_ERROR; connection-level credit not returned after all uploads are consumed or discarded <= 16 KiB and never negative. Non-trivial: the server sent DATA. Distinct: distinct controller action-label sequences."})
+		Rule: "a raw-frame client opens 1-8 (5%: 20-120) streams: downloads of 0..300000 bytes (boundary sizes 16384/16385/65535/65536, streamed by the back-end in chunks; 20% without Content-Length and with the end of the response held back until the controller releases it, so that END_STREAM travels in an empty DATA frame queued after further window events) and uploads of 0..120000 bytes in DATA frames of seeded sizes with padding (20% answered by the back-end without reading the body; 15% longer than their declared content-length, so that the server resets the stream and has to discard what follows), with SETTINGS_INITIAL_WINDOW_SIZE in {0,1,100,16384,65535,2^20} and MAX_FRAME_SIZE variants; then 0-10 window events: connection / stream WINDOW_UPDATEs of 1..2^20, further small downloads opened in between, INITIAL_WINDOW_SIZE changes up and down (driving open windows negative), MAX_FRAME_SIZE changes, client RST_STREAM mid-body; final grants that suffice for everything; 5%: a connection WINDOW_UPDATE overflowing 2^31-1; 3%: a stream window used up, driven negative by SETTINGS, reopened by a WINDOW_UPDATE, then 2 s of silence at whose end exactly the permitted bytes must have arrived. All three write schedulers, fences (incl. the write fence that keeps a frame write in flight, 30% of runs), response segmentation by draw. Oracle refwin: every DATA frame within the connection window, the stream window (largest INITIAL_WINDOW_SIZE among the last acknowledged and all later written SETTINGS, plus every WINDOW_UPDATE written before the frame was received) and the maximum frame size; all bodies complete and byte-identical after the final grants; overflow rejected with FLOW_CONTROL_ERROR; connection-level credit not returned after all uploads are consumed or discarded <= 16 KiB and never negative. Non-trivial: the server sent DATA. Distinct: distinct controller action-label sequences."})
 	register(&CheckDef{ID: "C20", Level: "exploration", Engine: "A", Draw: func(t *rapid.T) *Case { return drawFlow(t, "C20") },
 		Rule: "in-situ monitor: the C12 workload (bodies under client-controlled windows, RST_STREAM mid-body, INITIAL_WINDOW_SIZE and MAX_FRAME_SIZE changes) plus PRIORITY frames with arbitrary, circular and exclusive dependencies on open, idle and closed streams (and, with 20-120 streams, a dependency chain over all of them whose head is then made dependent on its far end), against round-robin / priority (seeded MaxClosedNodesInTree, MaxIdleNodesInTree, ThrottleOutOfOrderWrites) / random schedulers installed through http2.Server.NewWriteScheduler behind a monitor that checks every OpenStream / CloseStream / AdjustStream / Push / Pop against a list-based model: each pushed frame popped exactly once unless its stream was closed first, per-stream order, control before stream data, popped DATA pieces <= stream window, connection window and peer's maximum frame size (read before the pop through an injected accessor) and concatenating to the original, Pop()==false only when nothing is sendable, priority tree rooted at 0 / acyclic / links consistent after every operation. Operation sequences are those the serve loop produces under simulated schedules, not arbitrary interface-level sequences. Non-trivial: the server sent DATA. Distinct: distinct controller action-label sequences."})
 }
